@@ -15,6 +15,35 @@ CHECKS = {
              "Not modelled: ti-doc comment capture, numeric literal values, UTF-8 decoding.",
         technique="Lean 4 proof (structural/well-founded recursion, fun_induction) + regenerated tables + differential correspondence stream",
     ),
+    "C01": dict(
+        category="proof",
+        text="Partial by nature: Go runtime panics inside the unmodelled token-driven evaluators cannot be excluded by a theorem about a model. Proved in Lean for all inputs and all client call sequences: "
+             "the lexer/parser token layer never reports `read error` nor fails a type assertion, identifiers are never empty, TypeToString has a case for every tag, "
+             "and every Is/Has predicate on *T is nil-safe or reviewed (tables regenerated from the source each run). The model is tied by the lex/tok differential streams. "
+             "Evaluator crashes are searched black-box (prefixes, token mutations, random runes; ti and ti -i; exit status, stderr, line grammar), keyed by site.",
+        design="DESIGN.md §4 C01",
+        note="Trusted: Lean kernel, allowed axioms only, extractor, streams, hooks. NOT proved: absence of nil/bounds/assertion panics in eval/*.go (black-box only), stack overflow, OOM.",
+        technique="Lean 4 proof of the token-layer core + regenerated tables (decide) + differential streams; black-box crash search keyed by site",
+    ),
+    "C02": dict(
+        category="proof",
+        text="Lean: every loop of lexer.go is a structural recursion and each successful Advance consumes input; for EVERY sequence of Read/Unget/Skip/ReadAhead calls "
+             "the number of token requests is bounded by |pending| + #ungets + 1000 (end-of-input budget, potential-function proof), so no evaluator loop that requests a token per "
+             "iteration can spin; every condition-less loop in eval/ and parser/ requests a token or is on a reviewed list (regenerated table). Tied by lex/tok streams with per-op deadlines. "
+             "Hangs in unmodelled evaluator code and cyclic inheritance are searched black-box; a hang counts only if `timeout` persists on a solitary re-run.",
+        design="DESIGN.md §4 C02",
+        note="Trusted as for C01. NOT proved: loops that hand a token back every iteration, recursion in unmodelled evaluators, the wall-clock watchdog race itself.",
+        technique="Lean 4 proof (potential function over all client call sequences) + regenerated loop table + differential streams; black-box hang search",
+    ),
+    "C04": dict(
+        category="proof",
+        text="The requested row only selects which value is captured; the theorems are those of C01/C02 (token layer total, request bound, nil-safe predicates) plus row monotonicity "
+             "(ErrorRow only takes values of Row, which starts at 1 and never decreases). The printers are exercised black-box: --suggest/--hover/--define with rows 0..lines+2, -1 and 10^6 "
+             "over corpus programs and their mutations; exit 0, no panic, no persistent timeout, only %/@/$ records or diagnostics of the target file.",
+        design="DESIGN.md §4 C04",
+        note="Trusted as for C01. NOT proved: cmd/out.go printers (black-box here; modelled under C23).",
+        technique="Lean 4 proof of the token-layer/row core + black-box query-mode sweep keyed by site",
+    ),
 }
 
 PENDING_REASON = "check not built yet in this session (see DESIGN.md §4 for the planned Lean model and theorem); not claimed until its check exists"
